@@ -436,6 +436,18 @@ func (g *ownGen) call(e *genv, f *gfunc, d int) (string, bool) {
 				return "", false
 			}
 			v := prng.Pick(g.r, vs)
+			// inside a function: prefer handing on one of the function's own by-value parameters
+			if g.inFunc != nil && g.r.Chance(0.5) {
+				for k, fp := range g.inFunc.params {
+					if !g.inFunc.refs[k] && fp.ty == p.ty {
+						for _, c := range vs {
+							if c.name == fp.name {
+								v = c
+							}
+						}
+					}
+				}
+			}
 			// prefer the variable that was already passed by value in this call
 			if lastVar != "" && g.r.Chance(0.6) {
 				for _, c := range vs {
@@ -446,6 +458,13 @@ func (g *ownGen) call(e *genv, f *gfunc, d int) (string, bool) {
 			}
 			arg = v.name
 			g.role(p.ty, "argument-by-Referenz")
+			if g.inFunc != nil {
+				for k, fp := range g.inFunc.params {
+					if fp.name == v.name && !g.inFunc.refs[k] {
+						g.role(p.ty, "own-by-value-parameter-passed-on-by-Referenz")
+					}
+				}
+			}
 			if lastVar == v.name {
 				g.role(p.ty, "same-variable-by-value-and-by-Referenz")
 			}
@@ -515,6 +534,17 @@ func (g *ownGen) printStmt(e *genv, ind int) {
 	t := prng.Pick(g.r, []gty{tZ, tT, tT, tZL, tTL, tB, tW})
 	x, _ := g.expr(e, t, 2)
 	g.role(t, "discarded-after-print")
+	if g.inFunc != nil && !strings.HasPrefix(x, "(") && g.r.Bool() {
+		// a bare variable handed to an output function makes a parameter "possibly modified"; keep it constant half of the time
+		switch t {
+		case tT:
+			x = fmt.Sprintf("(%s verkettet mit \"\")", x)
+		case tZL:
+			x = fmt.Sprintf("(%s verkettet mit (eine leere Zahlen Liste))", x)
+		case tTL:
+			x = fmt.Sprintf("(%s verkettet mit (eine leere Text Liste))", x)
+		}
+	}
 	g.line(ind, fmt.Sprintf("Schreibe %s auf eine Zeile.", x))
 }
 
@@ -537,7 +567,7 @@ func (g *ownGen) stmt(e *genv, ind int) {
 	if g.inFunc == nil {
 		nested = ind
 	}
-	switch k := r.Intn(14); {
+	switch k := r.Intn(17); {
 	case k <= 2: // declaration of a non-primitive variable
 		t := prng.Pick(r, heapTypes)
 		x, n := g.expr(e, t, 2)
@@ -622,6 +652,46 @@ func (g *ownGen) stmt(e *genv, ind int) {
 		}
 	case k == 9 && nested < 3: // loops
 		g.loopStmt(e, ind)
+	case k == 14 || k == 15 || k == 16: // a call nested in the argument of another call (the output function), results observed
+		var fs []*gfunc
+		for _, f := range g.funcs {
+			if f != g.inFunc && f.hasRet {
+				fs = append(fs, f)
+			}
+		}
+		// prefer functions with a Referenz parameter: their effect on the argument is what the caller must (not) see
+		var withRef []*gfunc
+		for _, f := range fs {
+			for _, isRef := range f.refs {
+				if isRef {
+					withRef = append(withRef, f)
+					break
+				}
+			}
+		}
+		if len(withRef) > 0 && r.Chance(0.7) {
+			fs = withRef
+		}
+		if len(fs) > 0 {
+			f := prng.Pick(r, fs)
+			if call, ok := g.call(e, f, 1); ok {
+				g.role(f.ret, "call-nested-in-call-argument")
+				switch f.ret {
+				case tT, tZL, tTL, tZ, tB, tW:
+					g.line(ind, fmt.Sprintf("Schreibe (%s) auf eine Zeile.", call))
+				case tS:
+					g.line(ind, fmt.Sprintf("Schreibe (name von (%s)) auf eine Zeile.", call))
+				case tSL:
+					g.line(ind, fmt.Sprintf("Schreibe (die Länge von (%s)) auf eine Zeile.", call))
+				default:
+					v := &gvar{name: g.fresh("r"), ty: f.ret}
+					g.line(ind, fmt.Sprintf("%s %s ist %s.", f.ret.decl(), v.name, call))
+					e.push(v)
+				}
+				return
+			}
+		}
+		g.printStmt(e, ind)
 	case k == 10: // call statement (procedure or discarded result)
 		if len(g.funcs) > 0 {
 			f := prng.Pick(r, g.funcs)
@@ -853,13 +923,17 @@ func genOwnProgramOpt(r *prng.R, idx int, avoidAlias, selfContained bool) *HProg
 		g.b.WriteString(ownPrelude)
 	}
 	// functions
-	nf := r.Range(1, 4)
+	nf := r.Range(2, 5)
+	focus := []gty{prng.Pick(r, heapTypes), prng.Pick(r, heapTypes)}
 	for i := 0; i < nf; i++ {
 		f := &gfunc{name: fmt.Sprintf("fn%d", i)}
 		np := r.Range(0, 3)
 		alias := fmt.Sprintf("fn%d", i)
 		for k := 0; k < np; k++ {
 			t := prng.Pick(r, heapTypes)
+			if r.Chance(0.7) {
+				t = prng.Pick(r, focus) // few types per program: parameters of different functions fit each other
+			}
 			if r.Chance(0.15) {
 				t = tZ
 			}
@@ -929,8 +1003,16 @@ func genOwnProgramOpt(r *prng.R, idx int, avoidAlias, selfContained bool) *HProg
 			if f.refs[k] {
 				continue
 			}
+			// read-only uses that keep the parameter "constant" for the -O 2 copy elision: a bare variable handed to an
+			// output function counts as possibly modified, an expression over it does not
 			switch p.ty {
-			case tT, tZL, tTL, tZ:
+			case tT:
+				g.line(1, fmt.Sprintf("Schreibe (%s verkettet mit \"\") auf eine Zeile.", p.name))
+			case tZL:
+				g.line(1, fmt.Sprintf("Schreibe (%s verkettet mit (eine leere Zahlen Liste)) auf eine Zeile.", p.name))
+			case tTL:
+				g.line(1, fmt.Sprintf("Schreibe (%s verkettet mit (eine leere Text Liste)) auf eine Zeile.", p.name))
+			case tZ:
 				g.line(1, fmt.Sprintf("Schreibe %s auf eine Zeile.", p.name))
 			case tS:
 				g.line(1, fmt.Sprintf("Schreibe (name von %s) auf eine Zeile.", p.name))
